@@ -215,13 +215,21 @@ def explore(ctx, exe_san, exe, variant, cov, dist):
         ctx.log("%s: %d runs (total %d, accepted %d, rejected %d)" %
                 (label, len(cases), cov["evaluations"], dist["accepted"], dist["rejects"]))
 
+    # corpus: a target that talks at the instant of the watchdog poll after its deadline (F07-LOSTALRM needs the
+    # worker outside xpoll at that instant: finest granularity, several schedules)
+    chatty = {"conn": ["ok", 0], "out": [[0, 5], [4, 5], [-1, "EOF"]], "err": [[-1, "EOF"]]}
+    corpus = [T.mk_case([chatty], 1, 2, 3, False, 100 + k, yld="all") for k in range(16)]
+    for c in corpus:
+        c["budget"] = 20000
+    run_chunked(corpus, "corpus")
     settings_q = [(2, 3, True), (1, 0, False), (3, 1, True)]
     settings_t = [(2, 3, True), (1, 0, False), (3, 1, True), (2, 2, False), (0, 2, True), (5, 4, True)]
     if ctx.quick():
         cases = list(vectors(1, sorted(T.alphabet(2, 3)), settings_q, [1], rng))
-        cases += list(vectors(2, T.CORE, settings_q[:2], [1, 2], rng))
-        run_chunked(cases, "all fault vectors N<=2 (core alphabet for N=2)")
-        rnd = [gen_random(rng, 5) for _ in range(1500)]
+        cases += list(vectors(2, sorted(T.alphabet(2, 3)), settings_q[:1], [1, 2], rng))
+        cases += list(vectors(2, T.CORE, settings_q[1:], [1, 3], rng))
+        run_chunked(cases, "all fault vectors N<=2")
+        rnd = [gen_random(rng, 5) for _ in range(3000)]
     else:
         cases = list(vectors(1, sorted(T.alphabet(2, 3)), settings_t, [1, 2], rng))
         cases += list(vectors(2, sorted(T.alphabet(2, 3)), settings_t, [1, 2, 3], rng))
